@@ -556,6 +556,28 @@ def dict_update(I, d, src, node):
         d.open = True
         d.taint |= src.taint
         return
+    if isinstance(src, AList):
+        # an iterable of (key, value) pairs
+        for it in src.items:
+            pair = concrete(it) if is_concrete(it) else it
+            if isinstance(pair, AList) and not pair.unknown and len(pair.items) == 2:
+                pair = tuple(pair.items)
+            if isinstance(pair, tuple) and len(pair) == 2:
+                k, v = pair
+                if is_concrete(k):
+                    d.items[concrete(k)] = v
+                else:
+                    d.open = True
+                    d.taint |= taint_of(k) | taint_of(v)
+                    if not hasattr(d, 'unknown_pairs'):
+                        d.unknown_pairs = []
+                    d.unknown_pairs.append((k, v))
+            else:
+                raise AnalysisError('dict update from a sequence whose elements are not pairs: %r' % (it,))
+        if src.unknown:
+            d.open = True
+            d.taint |= taint_of(src)
+        return
     raise AnalysisError('dict update from %r' % (src,))
 
 
